@@ -827,4 +827,188 @@ theorem HInv.no_free_of_no_live {cfg h} (hi : HInv cfg h) (hl : h.live = []) : h
   simp at this
   omega
 
+
+/-- the bytes `[lo, hi)` an event stores to -/
+def Ev.lo : Ev → Nat
+  | .w a _ => a
+  | .cp d _ _ => d
+def Ev.hi : Ev → Nat
+  | .w a n => a + n
+  | .cp d _ n => d + n
+
+/-- the event stores nothing into `[lo, hi)` -/
+def Ev.Avoids (e : Ev) (lo hi : Nat) : Prop := e.hi ≤ lo ∨ hi ≤ e.lo
+
+/-- the event stores only into `[lo, hi)` -/
+def Ev.Inside (e : Ev) (lo hi : Nat) : Prop := lo ≤ e.lo ∧ e.hi ≤ hi
+
+theorem Ev.Inside.avoids {e : Ev} {lo hi lo' hi' : Nat} (h : e.Inside lo hi) (hd : hi ≤ lo' ∨ hi' ≤ lo) :
+    e.Avoids lo' hi' := by
+  unfold Ev.Inside at h; unfold Ev.Avoids; omega
+
+theorem predOf_mem {a b : Nat} {prev : Option Nat} {l : List Chunk} (h : predOf a prev l = some b) :
+    prev = some b ∨ ∃ c ∈ l, c.1 = b := by
+  induction l generalizing prev with
+  | nil => simp [predOf] at h
+  | cons c l ih =>
+    simp only [predOf] at h
+    split at h
+    · exact Or.inl h
+    · rcases ih h with h | ⟨d, hd, hb⟩
+      · right; cases h; exact ⟨c, by simp, rfl⟩
+      · right; exact ⟨d, List.mem_cons_of_mem _ hd, hb⟩
+
+/-- `pred->nx = …` goes into a free chunk -/
+theorem nxWrite_inside {a : Nat} {l : List Chunk} (hw : ∀ c ∈ l, 8 ≤ c.2) :
+    ∀ e ∈ nxWrite (predOf a none l), ∃ f ∈ l, e.Inside f.1 (f.1 + 8 + f.2) := by
+  intro e he
+  cases hp : predOf a none l with
+  | none => rw [hp] at he; simp [nxWrite] at he
+  | some b =>
+    rw [hp] at he; simp only [nxWrite, List.mem_singleton] at he; subst he
+    rcases predOf_mem hp with h | ⟨c, hc, hb⟩
+    · cases h
+    · have := hw c hc
+      exact ⟨c, hc, by simp only [Ev.Inside, Ev.lo, Ev.hi]; omega⟩
+
+/-- every store of malloc goes into a free chunk or behind the break -/
+theorem malloc_evs_where (cfg : Cfg) (h : Heap) (n : Nat) (hi : HInv cfg h) :
+    ∀ e ∈ (malloc cfg h n).evs, (∃ f ∈ h.flp, e.Inside f.1 (f.1 + 8 + f.2)) ∨ h.brk ≤ e.lo := by
+  have hw8 : ∀ c ∈ h.flp, 8 ≤ c.2 := fun c hc => (hi.wfF c hc).1
+  unfold malloc
+  generalize minLen (roundLen cfg.W n) = len
+  simp only
+  split
+  · intro e he; exact Or.inl (nxWrite_inside hw8 e he)
+  · rename_i s sfp1 hsc
+    have hb := scan_inr (L := h.flp) hsc (fun c hc => hc) (Or.inl rfl)
+    split
+    · rename_i hs0
+      have ⟨hm, hlt⟩ := hb.resolve_left hs0
+      split
+      · intro e he; exact Or.inl (nxWrite_inside hw8 e he)
+      · rename_i hsp
+        intro e he
+        simp only [List.mem_cons, List.mem_nil_iff, or_false] at he
+        left; refine ⟨(sfp1, s), hm, ?_⟩
+        rcases he with rfl | rfl <;> simp only [Ev.Inside, Ev.lo, Ev.hi] <;> omega
+    · split
+      · intro e he; simp at he
+      · intro e he
+        simp only [List.mem_singleton] at he; subst he
+        right; simp [Ev.lo]
+
+theorem insUpEvs_inside (N : Chunk) (l : List Chunk) (h8 : 8 ≤ N.2) :
+    ∀ e ∈ insUpEvs N l, e.Inside N.1 (N.1 + 8 + N.2) := by
+  intro e he
+  cases l with
+  | nil => simp [insUpEvs] at he
+  | cons fp1 r =>
+    simp only [insUpEvs] at he
+    split at he
+    · simp only [List.mem_cons, List.mem_nil_iff, or_false] at he
+      rcases he with rfl | rfl | rfl <;> simp only [Ev.Inside, Ev.lo, Ev.hi] <;> omega
+    · simp only [List.mem_cons, List.mem_nil_iff, or_false] at he
+      subst he; simp only [Ev.Inside, Ev.lo, Ev.hi]; omega
+
+theorem mergeDownEvs_inside (fp2 : Chunk) (a : Nat) (h8 : 8 ≤ fp2.2) :
+    ∀ e ∈ mergeDownEvs fp2 a, e.Inside fp2.1 (fp2.1 + 8 + fp2.2) := by
+  intro e he
+  simp only [mergeDownEvs] at he
+  split at he
+  · simp only [List.mem_cons, List.mem_nil_iff, or_false] at he
+    rcases he with rfl | rfl | rfl <;> simp only [Ev.Inside, Ev.lo, Ev.hi] <;> omega
+  · simp only [List.mem_cons, List.mem_nil_iff, or_false] at he
+    subst he; simp only [Ev.Inside, Ev.lo, Ev.hi]; omega
+
+theorem freeWalkEvs_inside (N fp2 : Chunk) (rest : List Chunk) (hN : 8 ≤ N.2)
+    (hw : ∀ c ∈ fp2 :: rest, 8 ≤ c.2) :
+    ∀ e ∈ freeWalkEvs N fp2 rest, ∃ f ∈ N :: fp2 :: rest, e.Inside f.1 (f.1 + 8 + f.2) := by
+  induction rest generalizing fp2 with
+  | nil =>
+    intro e he
+    simp only [freeWalkEvs] at he
+    exact ⟨fp2, by simp, mergeDownEvs_inside fp2 N.1 (hw fp2 (by simp)) e he⟩
+  | cons fp1 r ih =>
+    intro e he
+    simp only [freeWalkEvs] at he
+    split at he
+    · obtain ⟨f, hf, hin⟩ := ih fp1 (fun c hc => hw c (List.mem_cons_of_mem _ hc)) e he
+      refine ⟨f, ?_, hin⟩
+      rcases List.mem_cons.1 hf with rfl | hf
+      · simp
+      · simp [List.mem_cons.1 hf]
+    · rcases List.mem_append.1 he with he | he
+      · exact ⟨N, by simp, insUpEvs_inside N _ hN e he⟩
+      · exact ⟨fp2, by simp, mergeDownEvs_inside fp2 N.1 (hw fp2 (by simp)) e he⟩
+
+theorem lowerBrkEvs_shape (brk : Nat) (l : List Chunk) :
+    ∀ e ∈ lowerBrkEvs brk l, ∃ f ∈ l, e = .w (f.1 + 8) 8 := by
+  induction l with
+  | nil => simp [lowerBrkEvs]
+  | cons f r ih =>
+    cases r with
+    | nil => simp [lowerBrkEvs]
+    | cons g r =>
+      cases r with
+      | nil =>
+        intro e he
+        simp only [lowerBrkEvs] at he
+        split at he
+        · simp only [List.mem_singleton] at he; exact ⟨f, by simp, he⟩
+        · simp at he
+      | cons k r =>
+        intro e he
+        simp only [lowerBrkEvs] at he
+        obtain ⟨f', hf', h'⟩ := ih e he
+        exact ⟨f', List.mem_cons_of_mem _ hf', h'⟩
+
+/-- every store of free goes into the chunk being released or into a free chunk -/
+theorem free_evs_where (cfg : Cfg) (h : Heap) (p : Nat) (r : Res) (hi : HInv cfg h)
+    (hr : free h p = some r) :
+    ∃ sz, lookup (p - 8) h.live = some sz ∧
+      ∀ e ∈ r.evs, ∃ f ∈ (p - 8, sz) :: h.flp, e.Inside f.1 (f.1 + 8 + f.2) := by
+  unfold free at hr
+  split at hr
+  · cases hr
+  simp only at hr
+  split at hr
+  · cases hr
+  rename_i sz hl
+  refine ⟨sz, hl, ?_⟩
+  have hN := lookup_mem hl
+  obtain ⟨hN8, hNm, hNa⟩ := hi.wfL _ hN
+  simp only at hN8
+  have he0 : (Ev.w (p - 8 + 8) 8).Inside (p - 8) (p - 8 + 8 + sz) := by
+    simp only [Ev.Inside, Ev.lo, Ev.hi]; omega
+  split at hr
+  · split at hr <;> (cases hr; intro e he; simp only [List.mem_singleton] at he; subst he; exact ⟨(p - 8, sz), by simp, he0⟩)
+  · rename_i fp1 rest hflp
+    have hw8 : ∀ c ∈ fp1 :: rest, 8 ≤ c.2 := fun c hc => (hi.wfF c (by rw [hflp]; exact hc)).1
+    rw [hflp]
+    split at hr
+    · cases hr
+      intro e he
+      simp only [List.mem_cons, List.mem_append] at he
+      rcases he with rfl | he | he
+      · exact ⟨(p - 8, sz), by simp, he0⟩
+      · exact freeWalkEvs_inside (p - 8, sz) fp1 rest hN8 hw8 e he
+      · obtain ⟨f, hf, rfl⟩ := lowerBrkEvs_shape _ _ e he
+        have hmade := freeWalk_made (S := (p - 8, sz) :: fp1 :: rest) (N := (p - 8, sz)) (fp2 := fp1) (rest := rest)
+          (Made.base (by simp) hN8 hNm)
+          (Made.base (by simp) (hw8 fp1 (by simp)) (hi.wfF fp1 (by rw [hflp]; simp)).2.1)
+          (fun g hg => Made.base (by simp [hg]) (hw8 g (by simp [hg])) (hi.wfF g (by rw [hflp]; simp [hg])).2.1) f hf
+        obtain ⟨⟨g, hg, hga⟩, _⟩ := hmade
+        have hg8 : 8 ≤ g.2 := by
+          rcases List.mem_cons.1 hg with rfl | hg
+          · exact hN8
+          · exact hw8 g hg
+        exact ⟨g, hg, by simp only [Ev.Inside, Ev.lo, Ev.hi]; omega⟩
+    · cases hr
+      intro e he
+      simp only [List.mem_cons] at he
+      rcases he with rfl | he
+      · exact ⟨(p - 8, sz), by simp, he0⟩
+      · exact ⟨(p - 8, sz), by simp, insUpEvs_inside (p - 8, sz) _ hN8 e he⟩
+
 end Igris.C10
